@@ -64,8 +64,11 @@ class VdirStore(Store):
         cp.read([os.path.join(self.path, CONFIG_FILENAME)])
 
         def save_config(cp, message):
-            with open(os.path.join(self.path, CONFIG_FILENAME), "w") as f:
+            path = os.path.join(self.path, CONFIG_FILENAME)
+            tmppath = path + ".tmp"
+            with open(tmppath, "w") as f:
                 cp.write(f)
+            os.replace(tmppath, path)
 
         self.config = FileBasedCollectionMetadata(cp, save=save_config)
 
@@ -292,8 +295,10 @@ class VdirStore(Store):
     def _write_metadata(self, name, data):
         path = os.path.join(self.path, name)
         if data is not None:
-            with open(path, "w") as f:
+            tmppath = path + ".tmp"
+            with open(tmppath, "w") as f:
                 f.write(data)
+            os.replace(tmppath, path)
         else:
             os.unlink(path)
 
